@@ -101,8 +101,11 @@ class FocalLoss(Operation):
         return loss
 
     def backward_var(self, grad, index, **kwargs):
-        self.back[self.label_locs] *= grad
-        return self.back
+        # `self.back` is cached by the forward pass: scale a copy so that a
+        # second pass through this operation starts from the same values
+        back = self.back.copy()
+        back[self.label_locs] *= grad
+        return back
 
 
 def focal_loss(
